@@ -109,9 +109,9 @@ class error_999_visitor(pyx12.error_visitor.error_visitor):
         for elem in err_isa.elements:
             for (err_cde, err_str, bad_value) in elem.errors:
                 # Ugly
-                if 'ISA' in err_str:
+                if 'ISA' in err_str and elem.ele_pos in isa_ele_err_map:
                     err_codes.append(isa_ele_err_map[elem.ele_pos])
-                elif 'IEA' in err_str:
+                elif 'IEA' in err_str and elem.ele_pos in iea_ele_err_map:
                     err_codes.append(iea_ele_err_map[elem.ele_pos])
         # return unique codes
         return list(set(err_codes))
@@ -262,9 +262,9 @@ class error_999_visitor(pyx12.error_visitor.error_visitor):
         for elem in err_st.elements:
             for (err_cde, err_str, bad_value) in elem.errors:
                 # Ugly
-                if 'ST' in err_str:
+                if 'ST' in err_str and elem.ele_pos in st_ele_err_map:
                     err_codes.append(st_ele_err_map[elem.ele_pos])
-                elif 'SE' in err_str:
+                elif 'SE' in err_str and elem.ele_pos in se_ele_err_map:
                     err_codes.append(se_ele_err_map[elem.ele_pos])
         # return unique codes
         ret = list(set(err_codes))
